@@ -21,6 +21,8 @@ func main() {
 	switch name {
 	case "difftables":
 		text = diffTables(repo)
+	case "textsites":
+		text = textSites(repo)
 	default:
 		die("unknown translator %q", name)
 	}
